@@ -81,7 +81,8 @@ def extract(config="default", root=None, crate_dir=None):
     feat, rflags = CONFIGS[config]
     ensure_driver()
     key = _sha_tree(root)
-    tag = os.path.basename(os.path.abspath(root))
+    aroot = os.path.abspath(root)
+    tag = "repo" if aroot == "/repo" else "scratch" + hashlib.sha256(aroot.encode()).hexdigest()[:10]
     out = os.path.join(WORK, "facts", "%s-%s-%s.json" % (tag, key, config))
     if os.path.exists(out) and os.path.getsize(out) > 1000:
         return out
@@ -110,12 +111,16 @@ def extract(config="default", root=None, crate_dir=None):
             if not os.path.exists(tmp_out):
                 raise ExtractionError("driver did not write facts (wrapper skipped?) for config " + config)
             # prune old fact files of this tag/config (keep disk small)
+            now = time.time()
             for f in os.listdir(os.path.dirname(out)):
-                if f.startswith(tag + "-") and f.endswith("-%s.json" % config) and f != os.path.basename(out):
-                    try:
-                        os.remove(os.path.join(os.path.dirname(out), f))
-                    except OSError:
-                        pass
+                fp = os.path.join(os.path.dirname(out), f)
+                try:
+                    stale_same = f.startswith(tag + "-") and f.endswith("-%s.json" % config) and f != os.path.basename(out)
+                    stale_scratch = f.startswith("scratch") and now - os.path.getmtime(fp) > 3600
+                    if stale_same or stale_scratch:
+                        os.remove(fp)
+                except OSError:
+                    pass
             shutil.move(tmp_out, out)
         finally:
             shutil.rmtree(tdir, ignore_errors=True)
